@@ -7,7 +7,29 @@
    BroadcastUnderLock = FALSE is the code as found at the pinned commit: the
    AfterFunc broadcasts dataAvailable WITHOUT holding queueMu, so a cancel
    that lands between Pop's context check and its Wait() is lost (defect D11).
-   BroadcastUnderLock = TRUE is the repaired code.                          *)
+   BroadcastUnderLock = TRUE is the repaired code.
+
+   Variant = "none" is the code as it stands.  Every other value is ONE
+   single-line slip of rpc_queue.go (a seeded change that was or could be made).
+   Each of them must make a named property fail on a small configuration
+   (MCRpcQueue.tla, bin/lib/props/c15.py: MUST_FAIL) while "none" passes on the
+   same configuration: the properties are not vacuous, and the table in c15.py
+   names the forced / burst scenario of the drivers that exposes the slip in
+   the real code.
+     "afterfunc-signal"   AfterFunc: Signal instead of Broadcast             (seeded a1)
+     "push-if"            push: `if` instead of `for` around the wait        (seeded a2)
+     "popsig-transition"  Pop signals spaceAvailable only on full -> full-1  (seeded b1)
+     "pushsig-transition" push signals dataAvailable only on empty -> 1
+     "popsig-none", "pushsig-none"      the Signal is missing altogether
+     "popsig-data", "pushsig-space"     the Signal goes to the other condition
+     "close-nolock"       Close without queueMu                              (seeded b2)
+     "close-signal"       Close: Signal instead of Broadcast (both conditions)
+     "close-nodata", "close-nospace"    Close forgets one of the two broadcasts
+     "pop-norecheck", "push-norecheck"  no `closed` re-check after a wake-up
+     "pop-if"             Pop: `if` instead of `for` around the wait
+     "pop-ctxonce"        Pop checks its context before the loop only
+     "pop-normalfirst"    priorityQueue.Pop serves the normal class first
+     "len-normalonly"     priorityQueue.Len forgets the urgent class           *)
 EXTENDS Naturals, Sequences, FiniteSets, TLC
 
 CONSTANTS Cap,                 \* queue capacity
@@ -17,7 +39,8 @@ CONSTANTS Cap,                 \* queue capacity
           NPops,               \* NPops[j]  = number of Pop calls popper j performs (one ctx per popper)
           CanCancel,           \* set of poppers whose context may be cancelled
           CanClose,            \* BOOLEAN: may Close() be called
-          BroadcastUnderLock   \* see above
+          BroadcastUnderLock,  \* see above
+          Variant              \* see above
 
 VARIABLES normal, prio, closed,    \* the queue proper
           mu,                      \* lock owner, or "none"
@@ -47,6 +70,8 @@ Goto(p, l) == pc' = [pc EXCEPT ![p] = l]
 Result(p, r) == res' = [res EXCEPT ![p] = Append(@, r)]
 \* Signal wakes one waiter (if any), which one is not specified
 SignalSet(W) == IF W = {} THEN {{}} ELSE {W \ {w} : w \in W}
+\* priorityQueue.Len() as the code computes it
+ImplLen == IF Variant = "len-normalonly" THEN Len(normal) ELSE Q!QLen
 
 --------------------------------------------------------------------------
 (* push(rpc, urgent, block) *)
@@ -61,26 +86,43 @@ U_Lock(p) ==   \* q.queueMu.Lock()
 U_Done(p, r) ==  \* common tail: report r, unlock, next operation
     /\ Result(p, r) /\ mu' = "none" /\ Goto(p, "idle") /\ k' = [k EXCEPT ![p] = @ + 1]
 
-U_Chk(p) ==    \* if q.closed { panic } ; for Len == maxSize { ... } ; append ; Signal
+U_Chk(p) ==    \* if q.closed { panic }
     /\ pc[p] = "u_chk" /\ mu = p
     /\ IF closed
          THEN U_Done(p, "pushclosed") /\ UNCHANGED <<normal, prio, closed, WD, WS, ctxDone, afReg>>
-       ELSE IF Q!QLen = Cap
-         THEN IF Cur(p).block
-                THEN \* spaceAvailable.Wait(): join the wait set and release the lock atomically
-                     /\ WS' = WS \cup {p} /\ mu' = "none" /\ Goto(p, "u_waiting")
-                     /\ UNCHANGED <<normal, prio, closed, WD, k, ctxDone, afReg, res>>
-                ELSE U_Done(p, "full") /\ UNCHANGED <<normal, prio, closed, WD, WS, ctxDone, afReg>>
-       ELSE /\ IF Cur(p).urgent THEN prio' = Append(prio, Cur(p).x) /\ UNCHANGED normal
-                                ELSE normal' = Append(normal, Cur(p).x) /\ UNCHANGED prio
-            /\ \E W \in SignalSet(WD) : WD' = W          \* dataAvailable.Signal()
-            /\ U_Done(p, "ok")
-            /\ UNCHANGED <<closed, WS, ctxDone, afReg>>
+         ELSE Goto(p, "u_loop") /\ UNCHANGED <<normal, prio, closed, mu, WD, WS, k, ctxDone, afReg, res>>
 
-U_Wake(p) ==   \* return from Wait(): re-acquire the lock once signalled
+\* append to the class; dataAvailable.Signal(); return nil
+U_Append(p) ==
+    /\ IF Cur(p).urgent THEN prio' = Append(prio, Cur(p).x) /\ UNCHANGED normal
+                        ELSE normal' = Append(normal, Cur(p).x) /\ UNCHANGED prio
+    /\ CASE Variant = "pushsig-none" -> UNCHANGED <<WD, WS>>
+         [] Variant = "pushsig-transition" /\ Q!QLen # 0 -> UNCHANGED <<WD, WS>>   \* only when the queue was empty
+         [] Variant = "pushsig-space" -> (\E W \in SignalSet(WS) : WS' = W) /\ UNCHANGED WD
+         [] OTHER -> (\E W \in SignalSet(WD) : WD' = W) /\ UNCHANGED WS       \* dataAvailable.Signal()
+    /\ U_Done(p, "ok")
+    /\ UNCHANGED <<closed, ctxDone, afReg>>
+
+U_Loop(p) ==   \* for Len == maxSize { if block { (schedule point) Wait ... } else return ErrQueueFull }
+    /\ pc[p] \in {"u_loop", "u_append"} /\ mu = p
+    /\ IF pc[p] = "u_loop" /\ ImplLen = Cap       \* NB the code tests equality, not >=
+         THEN IF Cur(p).block
+                THEN \* about to wait: the schedule point of the hook rpcqueue.push.beforeWait
+                     Goto(p, "u_beforewait") /\ UNCHANGED <<normal, prio, closed, mu, WD, WS, k, ctxDone, afReg, res>>
+                ELSE U_Done(p, "full") /\ UNCHANGED <<normal, prio, closed, WD, WS, ctxDone, afReg>>
+         ELSE U_Append(p)
+
+U_Wait(p) ==   \* spaceAvailable.Wait(): join the wait set and release the lock atomically
+    /\ pc[p] = "u_beforewait" /\ mu = p
+    /\ WS' = WS \cup {p} /\ mu' = "none" /\ Goto(p, "u_waiting")
+    /\ UNCHANGED <<normal, prio, closed, WD, k, ctxDone, afReg, res>>
+
+U_Wake(p) ==   \* return from Wait(): re-acquire the lock once signalled; "if q.closed { panic }"; loop
     /\ pc[p] = "u_waiting" /\ p \notin WS /\ mu = "none"
-    /\ mu' = p /\ Goto(p, "u_chk")   \* "if q.closed { panic }" then re-test the loop: same as u_chk
-    /\ UNCHANGED <<normal, prio, closed, WD, WS, k, ctxDone, afReg, res>>
+    /\ IF closed /\ Variant # "push-norecheck"
+         THEN U_Done(p, "pushclosed") /\ UNCHANGED <<normal, prio, closed, WD, WS, ctxDone, afReg>>
+         ELSE /\ mu' = p /\ Goto(p, IF Variant = "push-if" THEN "u_append" ELSE "u_loop")
+              /\ UNCHANGED <<normal, prio, closed, WD, WS, k, ctxDone, afReg, res>>
 
 --------------------------------------------------------------------------
 (* Pop(ctx) *)
@@ -97,21 +139,32 @@ P_ChkClosed(j) ==  \* if q.closed return ErrQueueClosed ; register AfterFunc
     /\ pc[j] = "p_chkclosed" /\ mu = j
     /\ IF closed
          THEN P_Done(j, "closed") /\ UNCHANGED <<normal, prio, closed, WD, WS, ctxDone>>
-         ELSE /\ afReg' = [afReg EXCEPT ![j] = TRUE] /\ Goto(j, "p_loop")
-              /\ UNCHANGED <<normal, prio, closed, mu, WD, WS, k, ctxDone, res>>
+         ELSE IF Variant = "pop-ctxonce" /\ ctxDone[j] /\ ImplLen = 0
+           THEN P_Done(j, "cancelled") /\ UNCHANGED <<normal, prio, closed, WD, WS, ctxDone>>
+           ELSE /\ afReg' = [afReg EXCEPT ![j] = TRUE] /\ Goto(j, "p_loop")
+                /\ UNCHANGED <<normal, prio, closed, mu, WD, WS, k, ctxDone, res>>
 
-P_Loop(j) ==   \* for Len == 0 { select ctx.Done ... }
-    /\ pc[j] = "p_loop" /\ mu = j
+\* rpc := q.queue.Pop(); spaceAvailable.Signal(); return rpc
+P_Take(j) ==
     /\ IF Q!QLen = 0
-         THEN IF ctxDone[j]
+         THEN P_Done(j, "nil") /\ UNCHANGED <<normal, prio>>         \* priorityQueue.Pop on an empty queue yields nil
+         ELSE IF (prio # <<>> /\ Variant # "pop-normalfirst") \/ normal = <<>>
+                THEN prio' = Tail(prio) /\ UNCHANGED normal /\ P_Done(j, Head(prio))
+                ELSE normal' = Tail(normal) /\ UNCHANGED prio /\ P_Done(j, Head(normal))
+    /\ CASE Variant = "popsig-none" -> UNCHANGED <<WD, WS>>
+         [] Variant = "popsig-transition" /\ Q!QLen # Cap -> UNCHANGED <<WD, WS>>   \* only when the queue was full
+         [] Variant = "popsig-data" -> (\E W \in SignalSet(WD) : WD' = W) /\ UNCHANGED WS
+         [] OTHER -> (\E W \in SignalSet(WS) : WS' = W) /\ UNCHANGED WD        \* spaceAvailable.Signal()
+    /\ UNCHANGED <<closed, ctxDone>>
+
+P_Loop(j) ==   \* for Len == 0 { select ctx.Done ... (schedule point) Wait ... }
+    /\ pc[j] \in {"p_loop", "p_take"} /\ mu = j
+    /\ IF pc[j] = "p_loop" /\ ImplLen = 0
+         THEN IF ctxDone[j] /\ Variant # "pop-ctxonce"
                 THEN P_Done(j, "cancelled") /\ UNCHANGED <<normal, prio, closed, WD, WS, ctxDone>>
-                ELSE \* context checked, about to wait: the schedule point of the hook
+                ELSE \* context checked, about to wait: the schedule point of the hook rpcqueue.pop.beforeWait
                      Goto(j, "p_beforewait") /\ UNCHANGED <<normal, prio, closed, mu, WD, WS, k, ctxDone, afReg, res>>
-         ELSE \* rpc := q.queue.Pop(); spaceAvailable.Signal()
-              /\ IF prio # <<>> THEN prio' = Tail(prio) /\ UNCHANGED normal /\ P_Done(j, Head(prio))
-                                ELSE normal' = Tail(normal) /\ UNCHANGED prio /\ P_Done(j, Head(normal))
-              /\ \E W \in SignalSet(WS) : WS' = W
-              /\ UNCHANGED <<closed, WD, ctxDone>>
+         ELSE P_Take(j)
 
 P_Wait(j) ==   \* dataAvailable.Wait(): join the wait set and release the lock atomically
     /\ pc[j] = "p_beforewait" /\ mu = j
@@ -120,15 +173,18 @@ P_Wait(j) ==   \* dataAvailable.Wait(): join the wait set and release the lock a
 
 P_Wake(j) ==   \* signalled: re-acquire; "if q.closed return ErrQueueClosed"; loop
     /\ pc[j] = "p_waiting" /\ j \notin WD /\ mu = "none"
-    /\ IF closed
+    /\ IF closed /\ Variant # "pop-norecheck"
          THEN P_Done(j, "closed") /\ UNCHANGED <<normal, prio, closed, WD, WS, ctxDone>>
-         ELSE mu' = j /\ Goto(j, "p_loop") /\ UNCHANGED <<normal, prio, closed, WD, WS, k, ctxDone, afReg, res>>
+         ELSE /\ mu' = j /\ Goto(j, IF Variant = "pop-if" THEN "p_take" ELSE "p_loop")
+              /\ UNCHANGED <<normal, prio, closed, WD, WS, k, ctxDone, afReg, res>>
 
 (* the goroutine context.AfterFunc starts once the context is done *)
 AfterFunc(j) ==
     /\ j \in Poppers /\ ctxDone[j] /\ afReg[j]
     /\ BroadcastUnderLock => mu = "none"      \* repaired code: Lock(); Broadcast(); Unlock()
-    /\ WD' = {}                                \* dataAvailable.Broadcast()
+    /\ IF Variant = "afterfunc-signal"
+         THEN \E W \in SignalSet(WD) : WD' = W
+         ELSE WD' = {}                         \* dataAvailable.Broadcast()
     /\ afReg' = [afReg EXCEPT ![j] = FALSE]    \* runs once
     /\ UNCHANGED <<normal, prio, closed, mu, WS, pc, k, ctxDone, res>>
 
@@ -140,11 +196,18 @@ Cancel(j) ==
     /\ UNCHANGED <<normal, prio, closed, mu, WD, WS, pc, k, afReg, res>>
 
 Close ==   \* Lock(); closed = true; Broadcast both; Unlock()
-    /\ CanClose /\ ~closed /\ mu = "none"
-    /\ closed' = TRUE /\ WD' = {} /\ WS' = {}
+    /\ CanClose /\ ~closed
+    /\ Variant # "close-nolock" => mu = "none"
+    /\ closed' = TRUE
+    /\ CASE Variant = "close-signal" -> \E W \in SignalSet(WD) : WD' = W
+         [] Variant = "close-nodata" -> UNCHANGED WD
+         [] OTHER -> WD' = {}
+    /\ CASE Variant = "close-signal" -> \E W \in SignalSet(WS) : WS' = W
+         [] Variant = "close-nospace" -> UNCHANGED WS
+         [] OTHER -> WS' = {}
     /\ UNCHANGED <<normal, prio, mu, pc, k, ctxDone, afReg, res>>
 
-ProcStep(p) == U_Lock(p) \/ U_Chk(p) \/ U_Wake(p)
+ProcStep(p) == U_Lock(p) \/ U_Chk(p) \/ U_Loop(p) \/ U_Wait(p) \/ U_Wake(p)
                \/ P_Lock(p) \/ P_ChkClosed(p) \/ P_Loop(p) \/ P_Wait(p) \/ P_Wake(p)
 
 Next == (\E p \in Procs : ProcStep(p)) \/ (\E j \in Poppers : AfterFunc(j) \/ Cancel(j)) \/ Close
